@@ -239,6 +239,7 @@ class RoutingMonitor:
         self.reduce_frames = []
         self.sce = {}
         self.step_begin = {}
+        self.flipped = set()
 
     # ---- entries
     def entries_begin(self, c, strat, side):
@@ -387,11 +388,31 @@ class RoutingMonitor:
         if before == ACTIVE:
             self.fill_mark = getattr(self, 'fill_mark', {})
             self.fill_mark[order.symbol] = len(c.scratch['registry'].recs)
+            st = self.strats.get(order.symbol)
+            self.qty_before_fill = None if st is None else float(st.position.qty)
+
+    def order_exec_end(self, c, order, before):
+        # a position FLIP (a plain order bigger than what was left of the position): jesse reports it as a fresh open
+        # and re-submits the previous direction's declared exits as plain market orders (C06's known finding and the
+        # ping-pong hazard of 12.1); the declarations of such a session say nothing about C10 any more
+        st = self.strats.get(order.symbol)
+        q0 = getattr(self, 'qty_before_fill', None)
+        if before == ACTIVE and st is not None and q0 is not None:
+            q1 = float(st.position.qty)
+            if q0 * q1 < 0 and order.symbol not in self.flipped:
+                self.flipped.add(order.symbol)
+                c.count('c10_symbols_with_a_flip_not_judged_further')
 
     def open_hook_entered(self, c, strat):
+        q0 = getattr(self, 'qty_before_fill', None)
+        if q0 is not None and q0 * float(strat.position.qty) < 0 and strat.symbol not in self.flipped:
+            self.flipped.add(strat.symbol)     # "opened" by a flip: see order_exec_end
+            c.count('c10_symbols_with_a_flip_not_judged_further')
         self.check_exits_at_open(c, strat)
 
     def check_exits_at_open(self, c, strat):
+        if strat.symbol in self.flipped:
+            return
         reg = c.scratch['registry']
         mark = getattr(self, 'fill_mark', {}).get(strat.symbol)
         if mark is None:
@@ -460,6 +481,8 @@ class RoutingMonitor:
                 if gone:
                     self.v(c, 'entries-cancelled-anyway', 'C10|should_cancel_entry-no-but-entry-cancelled', {'ids': [r.id for r in gone][:4]})
         pos = strat.position
+        if sym in self.flipped:
+            return
         act = [r for r in reg.active(sym) if r.order.status == ACTIVE]
         if pos.is_close:
             bad = [r for r in act if r.reduce_only or getattr(r.order, 'submitted_via', None) is not None]
